@@ -61,6 +61,7 @@ enum Tpl {
     T_E_SUPER_CALL,
     T_E_DTOR_ERR,       // runtime error inside a user destructor (known finding D13) - only when enabled
     T_QCYCLE,           // garbage cycle whose nodes own an object with a qubit and an echoing destructor (known finding D19) - only when enabled
+    T_E_GENERIC_STATIC, // generic class whose static initialiser instantiates the same specialisation
     T_COUNT
 };
 
@@ -69,7 +70,7 @@ inline const char* tplName(int t) {
                               "static_assign", "loop_alloc", "destroy", "cycle_drop", "virtual", "box", "ret_while_dtor", "churn", "churn_d",
                               "self_cycle_live", "show_all", "static_cycle", "drop_var", "keep_chain", "diamond_generic", "method_churn",
                               "e_div0", "e_mod0", "e_longmin_mod", "e_index", "e_null_field", "e_null_call", "e_deep", "e_voverload", "e_ctor_err",
-                              "e_fieldinit_err", "e_int_extreme", "e_literal_range", "e_cast", "e_neg_array", "e_destroy_twice", "e_super_call", "e_dtor_err", "qubit_owner_in_garbage_cycle"};
+                              "e_fieldinit_err", "e_int_extreme", "e_literal_range", "e_cast", "e_neg_array", "e_destroy_twice", "e_super_call", "e_dtor_err", "qubit_owner_in_garbage_cycle", "e_generic_static"};
     return (t >= 0 && t < T_COUNT) ? n[t] : "?";
 }
 
@@ -164,7 +165,7 @@ inline std::string preamble(const Plan& p) {
             "class H1 extends H0 { public constructor() -> H1 { super(); return this; } public virtual override function lvl() -> int { return 1; } }\n"
             "class H2 extends H1 { public constructor() -> H2 { super(); return this; } }\n"
             "class H3 extends H2 { public constructor() -> H3 { super(); return this; } public virtual override function lvl() -> int { return 3; } }\n"
-            "class H4 extends H3 { public constructor() -> H4 { super(); return this; } }\n"
+            "class H4 extends H3 { public constructor() -> H4 { super(); return this; } public virtual override function lvl() -> int { return 40 + super.lvl(); } }\n"
             "class H5 extends H4 { public constructor() -> H5 { super(); return this; } public override function lvl() -> int { return 5 + super.lvl(); } }\n"
             "class V {\n"
             "    public constructor() -> V = default;\n"
@@ -193,6 +194,13 @@ inline std::string preamble(const Plan& p) {
             "    public constructor(int k) -> Bad { this.held = F.mk(55); int v = F.boom(k); return this; }\n"
             "    public destructor() -> void { echo(\"~Bad\"); }\n"
             "}\n"
+            "class Registry<T> {\n"
+            "    public static Registry<T> shared = new Registry<T>();\n"
+            "    public int hits = 0;\n"
+            "    public constructor() -> Registry<T> { }\n"
+            "    public function touch() -> int { this.hits = this.hits + 1; return this.hits; }\n"
+            "    public function viaShared() -> int { return shared.touch(); }\n"
+            "}\n"
             "class BadInit {\n"
             "    public N held = F.mk(56);\n"
             "    public int q = F.boom(3);\n"
@@ -203,6 +211,11 @@ inline std::string preamble(const Plan& p) {
                 "class BadDtor {\n"
                 "    public constructor() -> BadDtor = default;\n"
                 "    public destructor() -> void { int v = F.boom(7); echo(\"unreachable\"); }\n"
+                "}\n"
+                "class BadDtorN {\n"
+                "    public int k = 1;\n"
+                "    public constructor() -> BadDtorN = default;\n"
+                "    public destructor() -> void { if (this.k > 0) { for (int i = 0; i < 2; i = i + 1) { int v = F.boom(7 + i); } } echo(\"unreachable\"); }\n"
                 "}\n";
     }
     return s;
@@ -280,7 +293,14 @@ inline std::string renderStmt(const Plan& p, const Stmt& st, int index) {
         case T_E_DESTROY_TWICE: return "    N dt" + I(index) + " = mk(" + I(id) + ");\n    destroy dt" + I(index) + ";\n    destroy dt" + I(index) + ";\n    N dn" + I(index) + " = null;\n    destroy dn" + I(index) + ";\n";
         case T_E_SUPER_CALL: return "    M sm" + I(index) + " = new M(" + I(id) + ");\n    echo(sm" + I(index) + ".baseTag());\n    echo(sm" + I(index) + ".tag());\n";
         case T_QCYCLE: return "    qcyc(" + I(id) + ");\n    echo(\"after qcyc\");\n";
-        case T_E_DTOR_ERR: return "    BadDtor bdt" + I(index) + " = new BadDtor();\n    destroy bdt" + I(index) + ";\n    echo(\"after dtor err\");\n";
+        case T_E_DTOR_ERR: {
+            std::string cls = st.a % 2 ? "BadDtorN" : "BadDtor";   // error at the top level of the destructor body / inside nested blocks
+            return "    " + cls + " bdt" + I(index) + " = new " + cls + "();\n    destroy bdt" + I(index) + ";\n    echo(\"after dtor err\");\n";
+        }
+        case T_E_GENERIC_STATIC: {
+            std::string ty = st.a % 2 ? "string" : "int";
+            return "    Registry<" + ty + "> rg" + I(index) + " = new Registry<" + ty + ">();\n    echo(rg" + I(index) + ".touch());\n    echo(rg" + I(index) + ".viaShared());\n";
+        }
     }
     return "";
 }
@@ -328,7 +348,7 @@ inline Plan generate(sim::Rng& g, bool edge, bool allowDtorErr, bool allowQcycle
                                  T_LOOP_ALLOC, T_DESTROY, T_CYCLE_DROP, T_VIRTUAL, T_BOX, T_RET_WHILE_DTOR, T_CHURN, T_CHURN_D, T_SELF_CYCLE_LIVE, T_SHOW_ALL,
                                  T_STATIC_CYCLE, T_DROP_VAR, T_KEEP_CHAIN, T_DIAMOND_GENERIC, T_METHOD_CHURN};
     static const int edgeTpls[] = {T_E_DIV0, T_E_MOD0, T_E_LONGMIN_MOD, T_E_INDEX, T_E_NULL_FIELD, T_E_NULL_CALL, T_E_DEEP, T_E_VOVERLOAD, T_E_CTOR_ERR, T_E_FIELDINIT_ERR,
-                                   T_E_INT_EXTREME, T_E_LITERAL_RANGE, T_E_CAST, T_E_NEG_ARRAY, T_E_DESTROY_TWICE, T_E_SUPER_CALL};
+                                   T_E_INT_EXTREME, T_E_LITERAL_RANGE, T_E_CAST, T_E_NEG_ARRAY, T_E_DESTROY_TWICE, T_E_SUPER_CALL, T_E_GENERIC_STATIC};
     double edgeShare = edge ? 0.35 : 0.0;
     for (int i = 0; i < n; ++i) {
         Stmt st;
